@@ -201,6 +201,8 @@ def run(chk):
                     if len(chk.samples) < 3 and len(beh['fed']) > 2:
                         chk.sample({'ns': beh['ns'], 'batch_size': beh['base'], 'feed': beh['fed'], 'kind': kind, 'mode': mode, 'frame': frame, 'chain': chain})
         batch_rule(chk)
+        from .. import apirules
+        apirules.run(chk, 'batch_size', 'C02')
     finally:
         scared.Container._BATCH_SIZE = old
 
